@@ -365,6 +365,152 @@ func ruleIDClosure(c *Ctx) []Obligation {
 			obs = append(obs, bad(R, con, c.InstrPos(test), "finding the identity in its own closure records nothing: a derivation cycle is accepted silently"))
 		}
 	}
+	obs = append(obs, idClosureOnce(c, fn, idT)...)
+	return obs
+}
+
+// idClosureOnce: the closure walk lists each derived identity once. Either the walker adds an identity through a
+// membership scan of the list, or the visited set it consults lives exactly as long as the list it fills: a set
+// made anew for every direct derivation forgets what the previous one listed (a diamond — d derived from b and c,
+// both derived from a — then lists d twice under a).
+func idClosureOnce(c *Ctx, fn *ssa.Function, idT *types.Named) []Obligation {
+	const R = "ID.CLOSURE"
+	con := "the closure walk lists each derived identity once"
+	isIDSlice := func(t types.Type) bool {
+		sl, ok := t.Underlying().(*types.Slice)
+		if !ok {
+			return false
+		}
+		pt, ok := sl.Elem().(*types.Pointer)
+		return ok && namedOf(pt.Elem()) == idT
+	}
+	isIDSet := func(t types.Type) bool {
+		mt, ok := t.Underlying().(*types.Map)
+		if !ok {
+			return false
+		}
+		pt, ok := mt.Key().(*types.Pointer)
+		return ok && namedOf(pt.Elem()) == idT
+	}
+	type rootCall struct {
+		site       ssa.CallInstruction
+		list, seen ssa.Value
+	}
+	var walker *ssa.Function
+	var roots []rootCall
+	for _, ci := range c.callsInDeep(fn, func(ci ssa.CallInstruction) bool { return true }) {
+		cal := ci.Common().StaticCallee()
+		if cal == nil || !c.isRepoFn(cal) || len(c.callsTo(cal, cal)) == 0 {
+			continue
+		}
+		var l, sn ssa.Value
+		for _, a := range ci.Common().Args {
+			if isIDSlice(a.Type()) {
+				l = a
+			}
+			if isIDSet(a.Type()) {
+				sn = a
+			}
+		}
+		if l != nil && sn != nil {
+			walker = cal
+			roots = append(roots, rootCall{ci, l, sn})
+		}
+	}
+	if walker == nil {
+		return []Obligation{undecided(R, con, c.Pos(fn.Pos()), "no recursive walker taking an identity list and a visited set is called")}
+	}
+	// how the walker adds to the list
+	scan := false
+	plain := false
+	eachInstr(walker, func(in ssa.Instruction) {
+		call, isC := in.(*ssa.Call)
+		if !isC || !isIDSlice(call.Type()) {
+			return
+		}
+		if b, isB := call.Call.Value.(*ssa.Builtin); isB && b.Name() == "append" {
+			plain = true
+			return
+		}
+		cal := call.Call.StaticCallee()
+		if cal == nil || cal == walker || !c.isRepoFn(cal) {
+			return
+		}
+		// a membership scan: compares identities and hands the list back unchanged on a match
+		cmp, same := false, false
+		eachInstr(cal, func(in2 ssa.Instruction) {
+			if bo, isB := in2.(*ssa.BinOp); isB && bo.Op == token.EQL {
+				if pt, isP := bo.X.Type().(*types.Pointer); isP && namedOf(pt.Elem()) == idT {
+					cmp = true
+				}
+			}
+			if r, isR := in2.(*ssa.Return); isR && len(r.Results) == 1 && len(cal.Params) > 0 && r.Results[0] == ssa.Value(cal.Params[0]) {
+				same = true
+			}
+		})
+		if cmp && same {
+			scan = true
+		} else {
+			plain = true
+		}
+	})
+	if scan && !plain {
+		return []Obligation{ok(R, con, c.Pos(walker.Pos()), "the walker adds an identity through a membership scan of the list")}
+	}
+	// the visited set and the list are made at the same loop level
+	var obs []Obligation
+	for _, rc := range roots {
+		var mk *ssa.MakeMap
+		operandClosure(rc.seen, func(x ssa.Value) {
+			if m, isM := x.(*ssa.MakeMap); isM && mk == nil {
+				mk = m
+			}
+		})
+		var init ssa.Instruction
+		seenV := map[ssa.Value]bool{}
+		var leaves func(x ssa.Value)
+		leaves = func(x ssa.Value) {
+			if x == nil || seenV[x] {
+				return
+			}
+			seenV[x] = true
+			switch y := x.(type) {
+			case *ssa.Phi:
+				for _, e := range y.Edges {
+					leaves(e)
+				}
+			case *ssa.Call:
+				// the list handed back by an earlier walk
+			case *ssa.Extract:
+			case *ssa.UnOp:
+				// a variable that lives in a cell (it is captured by a closure): what is stored there
+				if al, isA := y.X.(*ssa.Alloc); isA && y.Op == token.MUL {
+					for _, r := range *al.Referrers() {
+						if st, isS := r.(*ssa.Store); isS && st.Addr == ssa.Value(al) {
+							leaves(st.Val)
+						}
+					}
+				} else if init == nil {
+					init = y
+				}
+			case ssa.Instruction:
+				if init == nil {
+					init = y
+				}
+			}
+		}
+		leaves(rc.list)
+		switch {
+		case mk == nil || init == nil:
+			obs = append(obs, undecided(R, con, c.InstrPos(rc.site.(ssa.Instruction)), "cannot tell where the visited set or the list of this walk is made"))
+		case mk.Parent() != init.Parent():
+			obs = append(obs, undecided(R, con, c.InstrPos(rc.site.(ssa.Instruction)), "the visited set and the list are made in different functions"))
+		case loopHeaderOf(mk.Block()) == loopHeaderOf(init.Block()):
+			obs = append(obs, ok(R, con, c.InstrPos(mk), "the walker appends what its visited set has not seen, and the set is made together with the list it fills"))
+		default:
+			obs = append(obs, bad(R, con, c.InstrPos(mk), "the visited set is made anew inside the loop that fills one list, and the walker appends without looking at the list: an identity reachable through two direct derivations (a diamond of bases, YANG 1.1) is listed twice"))
+		}
+	}
 	return obs
 }
 
